@@ -270,7 +270,7 @@ let oracle_c08_case script trace =
                   (* "outside" between the end of what a Start() on restored state produced and the restored valid_end is the
                      known class restart-keeps-valid-end: judged apart, everything else as before *)
                   let in_hole ((t, (o, _)), _) = match f.f_hole with
-                    | Some (hl, hh) -> let t = int_of_z t in t > hl && t <= hh && not o | None -> false in
+                    | Some (hl, hh) -> let t = int_of_z t in t >= hl && t <= hh && not o | None -> false in
                   let (holed, judged) = List.partition in_hole answers in
                   match tp_roll_answers_ok f.f_prefer (z_of_int lo) (tp_ve_num post) judged with
                   | None ->
@@ -319,7 +319,7 @@ let oracle_c08_case script trace =
               | Some i, Some x -> Some (tp_region_spec g.f_prefer (own_of g) i x)
               | _ -> None in
           match truth 0 f with
-          | Some t when t <> want && (not want) && (match f.f_hole with Some (hl, hh) -> !clock > hl && !clock <= hh | None -> false) ->
+          | Some t when t <> want && (not want) && (match f.f_hole with Some (hl, hh) -> !clock >= hl && !clock <= hh | None -> false) ->
             if !hole_hit = None then
               hole_hit := Some (Printf.sprintf "step=%d op=now name=%s now=%d violates-C08 restart-keeps-valid-end: is_inside at the clock is false although the definition says inside, between the end of what Start() computed and the valid_end restored from the state file" li (str a "name" "") !clock)
           | Some t when t <> want ->
@@ -355,8 +355,9 @@ let oracle_c08_case script trace =
               let clear = opn = "tp_start" || num a "clear" 1 <> 0 in
               if opn = "tp_start" then begin
                 f.f_active <- true; f.f_n0 <- !clock; f.f_snap <- (incs, excs);
-                let produced = List.fold_left (fun m (_, e) -> max m (int_of_z e)) (!clock + 86400) post.tp_segs in
-                f.f_hole <- (if int_of_z (tp_ve_num pre) > produced && pre.tp_ve <> None then Some (produced, int_of_z (tp_ve_num pre)) else None)
+                (* segments are half-open: the end of the last one is the first instant nothing was produced for; [now, now + 24 h] is Start()'s own region *)
+                let produced = List.fold_left (fun m (_, e) -> max m (int_of_z e)) (!clock + 86400 + 1) post.tp_segs in
+                f.f_hole <- (if int_of_z (tp_ve_num pre) >= produced && pre.tp_ve <> None then Some (produced, int_of_z (tp_ve_num pre)) else None)
               end;
               if f.f_ranges = [] then
                 (if tp_step_ok tp_src_merge_always probes (TpOpUpdate (f.f_own, f.f_prefer, incs, excs, zi "b", zi "e", clear)) pre post ins
